@@ -520,7 +520,7 @@ def other_thread_cases(out):
 
     from impl_prog import Duck, canon_bindings, stack_depth
 
-    for scope in ("call", "block"):
+    for scope in ("call", "block", "call, copied context", "block, copied context"):
         inside, go = threading.Event(), threading.Event()
         res = {}
 
@@ -538,7 +538,18 @@ def other_thread_cases(out):
                 go.wait(30)
                 res["held"] = canon_bindings(impl.bindings())["single"]
 
-        t = threading.Thread(target=(lambda: held(Duck((3,), "float32"))) if scope == "call" else held_block)
+        target = (lambda: held(Duck((3,), "float32"))) if scope.startswith("call") else held_block
+        if scope.endswith("copied context"):
+            # the worker runs inside a COPY of this thread's context (asyncio.to_thread, context-propagating executors),
+            # taken after this thread has used the library: a copy of the context is not a share of the bindings
+            import contextvars
+
+            with jaxtyped("context"):
+                isinstance(Duck((2,), "float32"), Float[Duck, "warm"])
+            ctx = contextvars.copy_context()
+            t = threading.Thread(target=ctx.run, args=(target,))
+        else:
+            t = threading.Thread(target=target)
         t.start()
         inside.wait(30)
         try:
